@@ -83,6 +83,26 @@ def correspondence(ctx):
             cases.append(f'prof|{prof_}|compare|f|b|{hexs(a_)}|{hexs(b_)}')
             cases.append(f'prof|{prof_}|compare|f|b|{hexs(a_)}|{hexs(a_)}')
     cases += fuzz_cases(ctx, {4, 11})      # coverage-guided search of the tree under check (only when the source changed / thorough)
+    import unicodedata
+    import verif as _v
+    keys = []
+    for l_ in open(os.path.join(_v.DUMP, 'norm.txt')):
+        f_ = l_.rstrip('\n').split('\t')
+        if f_[0] == 'compat' and len(f_[2].split()) == 1:
+            keys.append(int(f_[1], 16))
+    marks_ = [0x301, 0x304, 0x307, 0x308, 0x30A, 0x30C, 0x323, 0x331, 0x342, 0x345]
+
+    def pycanon(t):
+        for _ in range(3):
+            t = unicodedata.normalize('NFKC', ' '.join(unicodedata.normalize('NFKC', t).split()).lower())
+        return t
+    for c_ in keys[::(16 if ctx.tier == 'quick' else 2)]:
+        for m_ in marks_:
+            a_ = chr(c_) + chr(m_)
+            b_ = pycanon(a_)
+            if b_ and b_ != a_:
+                cases.append(f'prof|nick|compare|f|b|{hexs([ord(x) for x in a_])}|{hexs([ord(x) for x in b_])}')
+                cases.append(f'prof|op|compare|f|b|{hexs([ord(x) for x in a_])}|{hexs([ord(x) for x in b_])}')
     res = run_cases(cases, ctx.work)
     known = known_bidi(ctx)
 
